@@ -490,6 +490,47 @@ def changedAttrs (old cur : ShapeKey) : List String :=
 def updateRow (regs : List (String × String)) (cls : String) (built cur : ShapeKey) : ShapeKey :=
   if (changedAttrs built cur).any (fun a => regs.contains (a, cls)) then cur else built
 
+/-! ### `ControlChangeTracker` (wntr/network/controls.py) for one `(obj, attr)` target and one reference point
+
+`set_reference_point(key)` stores `getattr(obj, attr)`; every control action that targets `(obj, attr)` — `ControlAction` writes the
+attribute, `_InternalControlAction` writes the private attribute behind the property — calls `notify()`, and
+`ControlChangeTracker.update` then compares the CURRENT `getattr(obj, attr)` with the stored value: equal → `discard`, else → `add`.
+`reset_reference_point(key)` stores the current value again and empties the changed set. -/
+
+structure Tracked (V : Type) where
+  prev : V          -- `_previous_values[key][(obj, attr)]`
+  cur : V           -- `getattr(obj, attr)` now
+  changed : Bool    -- `(obj, attr) in _changed[key]`
+  deriving Repr
+
+inductive TrackOp (V : Type) where
+  | fire (v : V)    -- a control action on the target ran; afterwards the property reads `v`
+  | reset           -- `reset_reference_point(key)`
+
+def Tracked.start {V : Type} (v : V) : Tracked V := { prev := v, cur := v, changed := false }
+
+def Tracked.step {V : Type} [DecidableEq V] (s : Tracked V) : TrackOp V → Tracked V
+  | .fire v => { s with cur := v, changed := decide (v ≠ s.prev) }
+  | .reset => { prev := s.cur, cur := s.cur, changed := false }
+
+def Tracked.run {V : Type} [DecidableEq V] (s : Tracked V) : List (TrackOp V) → Tracked V
+  | [] => s
+  | op :: rest => (s.step op).run rest
+
+/-- `update_model_for_controls` for one target whose row / parameter was last built for `built`:
+`for obj, attr in get_changes('model'): model_updater.update(...)` (rebuilds iff a function is registered), then
+`reset_reference_point('model')` -/
+def modelUpdate {V : Type} [DecidableEq V] (registered : Bool) (t : Tracked V) (built : V) : Tracked V × V :=
+  (t.step .reset, if t.changed && registered then t.cur else built)
+
+/-- one trial of the simulator loop for that target: the control actions of the round fire, then the model is updated -/
+def trialRound {V : Type} [DecidableEq V] (registered : Bool) (st : Tracked V × V) (fires : List V) : Tracked V × V :=
+  modelUpdate registered (st.1.run (fires.map .fire)) st.2
+
+def trialRounds {V : Type} [DecidableEq V] (registered : Bool) (st : Tracked V × V) : List (List V) → Tracked V × V
+  | [] => st
+  | r :: rest => trialRounds registered (trialRound registered st r) rest
+
 /-! ### the DOCUMENTED constants (reference for the oracles; `Props/C02.lean` proves the generated constants equal them)
 
 Hazen-Williams in SI units: `h = 10.667·C^(−1.852)·d^(−4.871)·L·q^1.852` (WNTR / EPANET documentation), minor loss
